@@ -12,3 +12,4 @@ def check(rep, tier):
     rep.run(tracer_ftba.run_unbounded, rep, tier)
     from contracts import diffops
     rep.run(diffops.run_ops, rep, tier)       # operators that differentiate inside an outer differentiation (grad_and_aux, checkpoint, jacobian, hvp) keep their traced arguments
+    rep.run(programs_exact.run_ops, rep)
